@@ -431,7 +431,13 @@ def judge_c10(d, _=None):
     for e in d.world.entries:
         if e["kind"] not in USER_FN_KINDS:
             continue
+        # the operation whose function this is was begun (its START handed over, hence accepted) before the ancestor was
+        # handed its completion record: the branch was not orphaned yet at that operation, the function may still run
+        starts = [n for n, r in enumerate(be.log) if not r.get("external") and r["path"] == tuple(e["path"])
+                  and r["u"]["Action"] == "START" and r["tick"] <= e["tick"]]
         for cp, (cn, ctick) in done.items():
+            if starts and starts[-1] < cn:
+                continue
             if _is_prefix(cp, e["path"]) and e["tick"] > ctick and e["inv"] == be.log[cn]["inv"]:
                 V(out, "C10", "orphan-function-entered",
                   f"{e['kind']} function at {fmt_path(e['path'])} was entered after the backend applied the completion of "
